@@ -200,9 +200,10 @@ def build_parser(gdir, gen_result, impl_source=None):
     pb.prog_path = os.path.join(gdir, 'program.sexp')
     open(pb.prog_path, 'w').write(pb.sexp)
     if impl_source is not None:
+        # the driver includes the given file; its callback table is still derived from the freshly emitted text
+        # (the checked-in file is rustfmt-formatted, the trait methods are wrapped over several lines there)
         gen_path = os.path.join(gdir, 'impl_generated.rs')
-        text = open(impl_source).read()
-        open(gen_path, 'w').write(text)
+        open(gen_path, 'w').write(open(impl_source).read())
     drv = mkdriver.make_driver(gen_path, text, pb.tr, pb.tok_ids)
     open(os.path.join(gdir, 'driver.rs'), 'w').write(drv)
     pb.driver = os.path.join(gdir, 'driver')
